@@ -519,7 +519,9 @@ Section GSN.
               - reflexivity.
               - cbv beta iota. destruct D as [|D1].
                 + reflexivity.
-                + replace (Z.of_nat (S D1) =? 0)%Z with false by (symmetry; apply Z.eqb_neq; lia).
+                + assert (Hz1 : (Z.of_nat (S D1) =? 0)%Z = false) by (apply Z.eqb_neq; lia).
+                  assert (Hz2 : (0 =? Z.of_nat (S D1))%Z = false) by (apply Z.eqb_neq; lia).
+                  rewrite ?Hz1, ?Hz2. clear Hz1 Hz2.
                   gsn.
                   rewrite (gen_find_cp cp maxl cp_ne fuel _ p' (Z.of_nat (S D1) - 1) 0 (gs_ok_with_pt _))
                     by (unfold fill_fuel in *; lia).
